@@ -51,4 +51,44 @@ HeapStep(st, ev) ==
     [] OTHER -> [st EXCEPT !.pending = @ + ev.d]
 \* outcome protocol seen from the ledger: a failed call reports through the slot iff there is one
 ProtocolOK(ev) == ev.op \in {"Free", "ClearError", "add_compound_data"} \/ ((ev.ok = 1 => ev.err = 0) /\ (ev.ok = 0 /\ ev.slot = 1 => ev.err = 1) /\ (ev.slot = 0 => ev.err = 0))
+
+\* ---------------------------------------------------------------- a fault at a particular point: the k-th allocation request of a call fails
+\* A public call is a sequence of internal steps; each allocation request either is granted or (once) refused.  What the
+\* properties demand of a call in which a request was refused (C03: reported iff failed; C04: nothing held, nothing
+\* undefined; C14: a rejected addition leaves the collection as it was, and the collection stays usable):
+\*   ev = [scen, fn, at (0 = no fault), n (requests of the clean run), sig/status (how the child ended), inj (faults delivered),
+\*         ok, err, code, msg, same (collection as before: 1/0, -1 n.a.), has (object / collection complete: 1/0, -1 n.a.),
+\*         after (the same call succeeds when repeated without a fault: 1/0, -1 n.a.), bi (works on the built-in collection),
+\*         d (live blocks still held after the caller released everything it owns), files]
+MEMORY == 0          \* XRL_ERROR_MEMORY
+ReportsOnly(ev) == ev.scen = "failing_call"         \* a call that fails anyway: the refused request belongs to the error object itself
+FaultKind(ev) ==
+  IF ev.sig # 0 \/ ev.status # 0 THEN "died"
+  ELSE IF ev.at = 0 THEN (IF (ev.ok = 1 \/ ReportsOnly(ev)) /\ ev.has # 0 /\ (ev.d = 0 \/ ev.bi = 1) /\ ev.files = 0 THEN "" ELSE "broken-without-fault")
+  ELSE IF ev.files # 0 THEN "file-left-open"
+  ELSE IF ev.d # 0 /\ ev.bi = 0 THEN "leak"
+  ELSE IF ReportsOnly(ev) THEN (IF ev.err = 1 /\ ev.msg = 0 THEN "error-without-message" ELSE IF ev.has = 0 THEN "no-sentinel" ELSE "")
+  ELSE IF ev.ok = 1 THEN (IF ev.has = 0 THEN "incomplete-result" ELSE "")           \* the refusal was absorbed (or never reached): the result must be whole
+  ELSE IF ev.inj = 0 THEN "failed-without-fault"
+  ELSE IF ev.err = 0 THEN "silent-failure"
+  ELSE IF ev.code # MEMORY THEN "wrong-code"
+  ELSE IF ev.msg = 0 THEN "error-without-message"
+  ELSE IF ev.same = 0 THEN "collection-changed"
+  ELSE IF ev.after = 0 THEN "collection-unusable"
+  ELSE ""
+FaultWhy(ev) ==
+  LET k == FaultKind(ev) IN
+  CASE k = "" -> ""
+    [] k = "died" -> "the process died inside the call when allocation request " \o ToString(ev.at) \o " of " \o ToString(ev.n) \o " was refused (undefined access)"
+    [] k = "broken-without-fault" -> "the scenario fails, leaks or hands out an incomplete object without any fault"
+    [] k = "file-left-open" -> "a FILE is left open after the refused allocation"
+    [] k = "leak" -> "memory is still held after everything was released (" \o ToString(ev.d) \o " blocks)"
+    [] k = "incomplete-result" -> "the call reported success but the object / collection it produced is incomplete"
+    [] k = "failed-without-fault" -> "the call failed although no allocation was refused"
+    [] k = "silent-failure" -> "the call failed without storing an error"
+    [] k = "wrong-code" -> "a refused allocation is reported with code " \o ToString(ev.code) \o " instead of XRL_ERROR_MEMORY"
+    [] k = "error-without-message" -> "the stored error has no message"
+    [] k = "no-sentinel" -> "the failing call did not return the sentinel"
+    [] k = "collection-changed" -> "the rejected addition changed the collection"
+    [] k = "collection-unusable" -> "after the rejected addition the same addition, repeated without a fault, does not succeed"
 ==============================================================================
